@@ -354,24 +354,48 @@ def check(ctx):
     if fn is None:
         r3.bad(V(r3.id, "<anchor>", "missing:extract_emit_event", "anchor not found"))
     else:
-        tuples = []
-        for e in walk_block(fn.body):
-            if e.get("k") == "if" and "method_name" in expr_text(e["cond"]):
-                which = "emit_to" if '"emit_to"' in expr_text(e["cond"]) and "==" in expr_text(e["cond"]) else "?"
-                def idx(block):
-                    out = []
-                    for x in walk_block(block):
-                        if x.get("k") == "tuple" and len(x["elems"]) == 2:
-                            out.append(tuple(re.findall(r"args\[(\d+)\]", expr_text(x))))
-                    return out
-                then_t = idx(e["then"])
-                else_t = idx(e["else"]["stmts"]) if e.get("else") and e["else"].get("k") == "block" else []
-                tuples.append((which, then_t, else_t))
-        okp = any(w == "emit_to" and ("1", "2") in t and ("0", "1") in e_ for (w, t, e_) in tuples)
+        # decided path by path on the type-checked body (helpers spliced in): on every path that records an event, the argument taken for the
+        # name and the one taken for the payload are args[1], args[2] when the method is emit_to and args[0], args[1] otherwise, and the
+        # dominating length test admits that payload index — whether the indices are literals or computed (`name_index + 1`)
+        from rulelib import enumerate_paths, path_int_env
+        tuples = set()
+        bad_paths = []
+        n_paths = 0
+        for f in P.find("EventParser::extract_emit_event"):
+            pushes = [c for c in f.calls if short_path(c.path) == "Vec::push" and "EventInfo" in " ".join(c.generics + [c.self_ty or ""]) and c.bb in f.reach_blocks]
+            for pc in pushes:
+                for path in enumerate_paths(f, pc.bb):
+                    env, calls, conds = path_int_env(f, path)
+                    is_to = None
+                    for (b_, o, outcome, cmpv) in conds:
+                        if o[0] == "call" and o[1].name in ("eq", "ne") and len(o[1].args) == 2 and "emit_to" in (o[1].arg_lit(0, P), o[1].arg_lit(1, P)):
+                            is_to = (outcome == "true") == (o[1].name == "eq")
+                    idxs = [vals[1] for (b_, c, vals) in calls if c is not None and c.path == "std::ops::Index::index" and "Punctuated" in (c.self_ty or "") + " ".join(c.generics) and len(vals) > 1]
+                    lens = []
+                    for (b_, o, outcome, cmpv) in conds:
+                        if cmpv and o[0] == "bin":
+                            op_, a_op, a_v, b_op, b_v = cmpv
+                            la = f.origin(a_op)
+                            lb = f.origin(b_op)
+                            if la[0] == "call" and la[1].name == "len" and b_v is not None:
+                                n_ = {("Ge", "true"): b_v, ("Gt", "true"): b_v + 1, ("Lt", "false"): b_v, ("Le", "false"): b_v + 1, ("Eq", "true"): b_v}.get((op_, outcome))
+                                if n_ is not None:
+                                    lens.append(n_)
+                            elif lb[0] == "call" and lb[1].name == "len" and a_v is not None:
+                                n_ = {("Le", "true"): a_v, ("Lt", "true"): a_v + 1, ("Gt", "false"): a_v, ("Ge", "false"): a_v + 1, ("Eq", "true"): a_v}.get((op_, outcome))
+                                if n_ is not None:
+                                    lens.append(n_)
+                    n_paths += 1
+                    tup = (is_to, tuple(idxs), max(lens) if lens else 0)
+                    tuples.add(tup)
+                    want = (1, 2) if is_to else (0, 1)
+                    if is_to is None or tuple(idxs) != want or tup[2] < want[1] + 1:
+                        bad_paths.append(tup)
+        okp = n_paths > 0 and not bad_paths and {t[0] for t in tuples} == {True, False}
         if okp:
             r3.ok("emit_to → (args[1], args[2]); emit → (args[0], args[1])")
         else:
-            r3.bad(V(r3.id, "EventParser::extract_emit_event", "positions:%s" % tuples, "argument positions are %s" % tuples))
+            r3.bad(V(r3.id, "EventParser::extract_emit_event", "positions:%s" % sorted(bad_paths or tuples, key=str)[:4], "argument positions (emit_to?, indices, admitted length) per recording path are %s" % sorted(tuples, key=str)))
     hmf = S.fn("EventParser", "handle_method_call")
     if hmf is not None:
         # the literals the method name is compared with (==, matches!, match: all are str equality calls in the type-checked program)
